@@ -6,6 +6,7 @@ import re
 from collections import defaultdict
 from dataclasses import dataclass
 from dataclasses import field
+from itertools import chain
 from typing import TYPE_CHECKING
 from typing import Iterable
 from typing import TypeAlias
@@ -24,6 +25,7 @@ from .token import is_tag_token
 
 if TYPE_CHECKING:
     from .ast import Node
+    from .ast import Partial
     from .expression import Expression
     from .template import Template
 
@@ -114,7 +116,10 @@ class _VariableMap:
         return self._data[k]
 
     def add(self, var: Variable) -> None:
-        self[var].append(var)
+        variables = self[var]
+        # A partial template can be visited more than once.
+        if not any(v == var and v.span == var.span for v in variables):
+            variables.append(var)
 
     def as_dict(self) -> dict[str, list[Variable]]:
         return self._data
@@ -155,19 +160,33 @@ def _analyze(template: Template, *, include_partials: bool) -> TemplateAnalysis:
     root_scope = _StaticScope(template_scope)
     static_context = RenderContext(template)
 
-    # Names of partial templates that have already been analyzed.
-    seen: set[str] = set()
+    # Partial templates that have already been analyzed, and the names that were in
+    # scope at the time. The same partial is analyzed again if it is loaded with
+    # different names in scope, as they decide which of its variables are global.
+    seen: set[tuple[object, ...]] = set()
+
+    def _seen(partial_name: str, partial: Partial) -> bool:
+        in_scope = frozenset(str(name) for name in partial.in_scope)
+        if partial.scope == PartialScope.ISOLATED:
+            key: tuple[object, ...] = (partial_name, partial.scope, in_scope)
+        else:
+            # The template scope only grows, so the first visit is the most
+            # conservative as far as it is concerned. Block scopes come and go.
+            block_scope = frozenset(chain.from_iterable(root_scope.stack[1:]))
+            key = (partial_name, partial.scope, in_scope, block_scope)
+        if key in seen:
+            return True
+        seen.add(key)
+        return False
 
     def _visit(node: Node, template_name: str, scope: _StaticScope) -> None:
-        if template_name:
-            seen.add(template_name)
-
         # Update tags from node.token
         if not isinstance(
             node, (BlockNode, ConditionalBlockNode, MultiExpressionBlockNode)
         ) and (is_tag_token(node.token) or is_lines_token(node.token)):
-            tags[node.token.name].append(
-                Span(template_name, node.token.start, node.token.stop)
+            _add_span(
+                tags[node.token.name],
+                Span(template_name, node.token.start, node.token.stop),
             )
 
         # Update variables from node.expressions()
@@ -176,7 +195,7 @@ def _analyze(template: Template, *, include_partials: bool) -> TemplateAnalysis:
 
             # Update filters from expr
             for name, span in _extract_filters(expr, template_name):
-                filters[name].append(span)
+                _add_span(filters[name], span)
 
         # Update the template scope from node.template_scope()
         for ident in node.template_scope():
@@ -191,7 +210,7 @@ def _analyze(template: Template, *, include_partials: bool) -> TemplateAnalysis:
         if partial := node.partial_scope():
             partial_name = str(partial.name.evaluate(static_context))
 
-            if partial_name in seen:
+            if _seen(partial_name, partial):
                 return
 
             partial_scope = (
@@ -203,7 +222,6 @@ def _analyze(template: Template, *, include_partials: bool) -> TemplateAnalysis:
             for child in node.children(
                 static_context, include_partials=include_partials
             ):
-                seen.add(partial_name)
                 _visit(child, partial_name, partial_scope)
 
             partial_scope.pop()
@@ -241,19 +259,33 @@ async def _analyze_async(
     root_scope = _StaticScope(template_scope)
     static_context = RenderContext(template)
 
-    # Names of partial templates that have already been analyzed.
-    seen: set[str] = set()
+    # Partial templates that have already been analyzed, and the names that were in
+    # scope at the time. The same partial is analyzed again if it is loaded with
+    # different names in scope, as they decide which of its variables are global.
+    seen: set[tuple[object, ...]] = set()
+
+    def _seen(partial_name: str, partial: Partial) -> bool:
+        in_scope = frozenset(str(name) for name in partial.in_scope)
+        if partial.scope == PartialScope.ISOLATED:
+            key: tuple[object, ...] = (partial_name, partial.scope, in_scope)
+        else:
+            # The template scope only grows, so the first visit is the most
+            # conservative as far as it is concerned. Block scopes come and go.
+            block_scope = frozenset(chain.from_iterable(root_scope.stack[1:]))
+            key = (partial_name, partial.scope, in_scope, block_scope)
+        if key in seen:
+            return True
+        seen.add(key)
+        return False
 
     async def _visit(node: Node, template_name: str, scope: _StaticScope) -> None:
-        if template_name:
-            seen.add(template_name)
-
         # Update tags from node.token
         if not isinstance(
             node, (BlockNode, ConditionalBlockNode, MultiExpressionBlockNode)
         ) and (is_tag_token(node.token) or is_lines_token(node.token)):
-            tags[node.token.name].append(
-                Span(template_name, node.token.start, node.token.stop)
+            _add_span(
+                tags[node.token.name],
+                Span(template_name, node.token.start, node.token.stop),
             )
 
         # Update variables from node.expressions()
@@ -262,7 +294,7 @@ async def _analyze_async(
 
             # Update filters from expr
             for name, span in _extract_filters(expr, template_name):
-                filters[name].append(span)
+                _add_span(filters[name], span)
 
         # Update the template scope from node.template_scope()
         for ident in node.template_scope():
@@ -277,7 +309,7 @@ async def _analyze_async(
         if partial := node.partial_scope():
             partial_name = str(partial.name.evaluate(static_context))
 
-            if partial_name in seen:
+            if _seen(partial_name, partial):
                 return
 
             partial_scope = (
@@ -289,7 +321,6 @@ async def _analyze_async(
             for child in await node.children_async(
                 static_context, include_partials=include_partials
             ):
-                seen.add(partial_name)
                 await _visit(child, partial_name, partial_scope)
 
             partial_scope.pop()
@@ -311,6 +342,12 @@ async def _analyze_async(
         filters=dict(filters),
         tags=dict(tags),
     )
+
+
+def _add_span(spans: list[Span], span: Span) -> None:
+    # A partial template can be visited more than once.
+    if span not in spans:
+        spans.append(span)
 
 
 def _extract_filters(
